@@ -96,10 +96,29 @@ impl Model {
         (start..stop).collect()
     }
 
+    /// (first, last+1) whole clusters inside [off, off+len) clipped to vsize
+    pub fn discard_bounds(&self, off: u64, len: u64) -> Option<(u64, u64)> {
+        let end = off.saturating_add(len).min(self.vsize);
+        if len == 0 || off >= end {
+            return None;
+        }
+        let start = off.div_ceil(self.cs);
+        let stop = end / self.cs;
+        if start < stop {
+            Some((start, stop))
+        } else {
+            None
+        }
+    }
+
     /// discard as C11 specifies it.  Returns the clusters that were released.
     pub fn discard(&mut self, off: u64, len: u64) -> Vec<u64> {
         let mut rel = vec![];
-        for g in self.discard_clusters(off, len) {
+        let Some((a, b)) = self.discard_bounds(off, len) else {
+            return rel;
+        };
+        let cand: Vec<u64> = self.class.range(a..b).map(|(g, _)| *g).collect();
+        for g in cand {
             if self.class_of(g) == CClass::Data {
                 self.set_cluster_ids(g, 0);
                 // an explicit "reads as zeros" state; it has no own allocation
